@@ -26,7 +26,7 @@ func genText(rng *core.Rng) string {
 	case 0:
 		return ""
 	case 1:
-		return core.Pick(rng, []string{" ", "NULL", "null", "\\N", "{}", "t", "0", "'", "\"", "\\", "a,b", "ü", "😀", " "})
+		return core.Pick(rng, []string{" ", "NULL", "null", "\\N", "{}", "t", "0", "'", "\"", "\\", "a,b", "ü", "😀", "nul\x00inside", "\x00", "\uFFFD", "caf\xe9", " "})
 	case 2:
 		return strings.Repeat(core.Pick(rng, []string{"x", "漢", "😀"}), 1+rng.Intn(2000))
 	}
